@@ -401,7 +401,7 @@ def createInformers (mc : MonCfg) (w : World) : Monitor :=
   let nsl := mc.namespaces
   let static := (nsl.map (fun ns => createForNs mc.cfg mc.namesEff (mc.list w) ns)).flatten
   let staticNs := nsl.filterMap id
-  let existing := if mc.nsSel then (w.nss.filter (fun p => p.2 == 1)).map (·.1) else []
+  let existing := if mc.nsSel then dedupNames ((w.nss.filter (fun p => p.2 == 1)).map (·.1)) else []
   let varying := (existing.filter (fun n => !staticNs.contains n)).map
     (fun n => (n, createForNs mc.cfg mc.namesEff (mc.list w) (some n)))
   { static := static, varying := varying, staticNs := staticNs }
@@ -418,7 +418,7 @@ matching objects of the store; the namespace informer starts and reports the mat
 def startMonitor (mc : MonCfg) (w : World) (m : Monitor) : Monitor :=
   let m := m.mapInformers (fun i =>
     feed mc (fun i => (mc.list w i.ns i.name).map (fun o => (EvType.added, o))) { i with started := true })
-  let existing := if mc.nsSel then (w.nss.filter (fun p => p.2 == 1)).map (·.1) else []
+  let existing := if mc.nsSel then dedupNames ((w.nss.filter (fun p => p.2 == 1)).map (·.1)) else []
   existing.foldl (nsAdded mc.cfg mc.namesEff (mc.list w)) m
 
 /-- one cluster operation on objects, delivered to every started informer -/
@@ -440,6 +440,27 @@ def nsStep (mc : MonCfg) (started : Bool) (w : World) (m : Monitor) (n : Nat) (l
     else if was && !now then nsDeleted m n
     else m
   (w', m')
+
+/-- One step of a monitor's life after `AddMonitor`. -/
+inductive MStep
+  | start                              -- StartMonitor
+  | obj (op : COp)                     -- an object is written / deleted in the cluster
+  | ns (n : Nat) (lbl : Option Nat)    -- a namespace is created / relabelled / deleted
+deriving Repr
+
+structure MState where
+  w : World
+  m : Monitor
+  started : Bool := false
+
+def mstep (mc : MonCfg) (s : MState) : MStep → MState
+  | .start => { s with m := startMonitor mc s.w s.m, started := true }
+  | .obj op => let r := objStep mc s.w s.m op; { s with w := r.1, m := r.2 }
+  | .ns n lbl => let r := nsStep mc s.started s.w s.m n lbl; { s with w := r.1, m := r.2 }
+
+/-- `AddMonitor` on world `w0`, then any history. -/
+def runMonitor (mc : MonCfg) (w0 : World) (steps : List MStep) : MState :=
+  steps.foldl (mstep mc) { w := w0, m := createInformers mc w0 }
 
 /-- **Spec**: the objects that currently match the binding — kind, namespaces (the named ones, or
 the existing ones matching the namespace label selector, or all), names, label and field selector. -/
